@@ -514,6 +514,13 @@ func c07Run(c *c07Case, env *fw.Env, v *fw.V) {
 		defer perturb.Trigger("", 0, 0, nil)
 	}
 	opts := drive.Opts{ExtraSubs: 1, Ctx: pctx}
+	if c.K%3 == 1 {
+		// the engine's own context (WithEngineContext) outlives the instance's: it is cancelled only when the case
+		// is over, after the census - whatever the engine starts for an instance must end with the instance
+		ectx, ecancel := context.WithCancel(context.Background())
+		defer ecancel()
+		opts.EngineCtx = ectx
+	}
 	if p.Timer {
 		opts.Mock = clock.NewMock()
 	}
